@@ -115,7 +115,15 @@ def run(ctx: Ctx):
             return None
         return None
 
-    pe = PathEnumerator(ev, loop_iters=(0, 1), exc_edges=False)
+    def _flag_label(old, new):
+        # `flag = flag or converted`: a repair is scheduled when the flag becomes true; nothing happens when it stays as it was
+        if new is True and old is not True:
+            return "FLAG+"
+        if new is False and old is True:
+            return "FLAG-"
+        return None
+
+    pe = PathEnumerator(ev, loop_iters=(0, 1), exc_edges=False, flags={flag: _flag_label})
     paths = pe.paths(loop.body)
     col.floor("per_utterance_paths", len(paths), 1000)
     sigs = {}
@@ -417,7 +425,134 @@ def _s4(ctx, f, pm, rd, kindvar, where, rel):
                f"('by at most fix')", rel, n.lineno, sample=dict(got=sorted(got), want=sorted(want)))
 
 
+def _sos_eos_tables(ctx, rel) -> bool:
+    """S6 as value tables: `_load_ref` and `_write_hyp` interpreted over exact values (sa/interp.py + sa/teval.py; nothing is run;
+    torch.load gives the stored tensor, torch.save records what is written) for 1- and 2-dimensional, empty and non-empty transcripts,
+    start / end symbols given or not (0 included), tokens_only on / off. Documented: reading drops the segment columns under
+    tokens_only, then puts the start symbol in front and the end symbol behind (a row [sym, -1, -1] for 2-dimensional transcripts);
+    writing cuts everything up to the LAST start symbol and from the FIRST end symbol on - so what was read is written back bare."""
+    import numpy as np
+    from sa.interp import Interp
+    from sa.inteval import NotEvaluable
+    from sa.teval import frac_array
+    col, pkg = ctx.col, ctx.pkg
+    mod_tree = pkg.module(MOD).tree
+    funcs = {st.name: st for st in mod_tree.body if isinstance(st, ast.FunctionDef)}
+
+    def lookup(c):
+        return funcs.get(c.func.id) if isinstance(c.func, ast.Name) and c.func.id.startswith("_") and c.func.id not in ("_load_ref", "_write_hyp") else None
+    lf, wf = pkg.func(f"{MOD}::_load_ref"), pkg.func(f"{MOD}::_write_hyp")
+
+    def arr(rows, width=None):
+        if not rows:
+            return np.empty((0,) if width is None else (0, width), dtype=object)
+        return frac_array(rows)
+    bad_l = bad_w = None
+    n_l = n_w = 0
+    try:
+        for stored in ([5, 6, 7], [], [[5, 0, 1], [6, 1, 3]], "empty2d"):
+            for tokens_only in (True, False):
+                for sos in (None, 0, 3):
+                    for eos in (None, 1):
+                        two_d = stored == "empty2d" or (stored and isinstance(stored[0], list))
+                        t = arr([] if stored == "empty2d" else stored, 3 if two_d else None)
+
+                        def leaf(x, env, t=t):
+                            if isinstance(x, ast.Call) and call_name(x) == "torch.load":
+                                return t
+                            return None
+                        names = [a.arg for a in lf.node.args.args]
+                        kind, got = Interp(leaf=leaf, lookup=lookup, tensors=True).run(lf.node, dict(zip(names, ("<path>", tokens_only, sos, eos))))
+                        n_l += 1
+                        rows = [] if stored == "empty2d" else list(stored)
+                        if two_d and tokens_only:
+                            rows = [r_[0] for r_ in rows]
+                        flat = not two_d or tokens_only
+                        if sos is not None:
+                            rows = [sos if flat else [sos, -1, -1]] + rows
+                        if eos is not None:
+                            rows = rows + [eos if flat else [eos, -1, -1]]
+                        g = np.asarray(got, dtype=object).tolist() if kind == "return" and hasattr(got, "shape") else None
+                        try:
+                            ok = g is not None and [[int(z) for z in r_] if isinstance(r_, list) else int(r_) for r_ in g] == rows and (
+                                flat == (np.asarray(got).ndim == 1))
+                        except (TypeError, ValueError):
+                            ok = False
+                        if not ok and bad_l is None:
+                            bad_l = (stored, tokens_only, sos, eos, g if g is not None else f"{kind} {got}", rows)
+        S, E = "s", "e"
+        for shape in ([S, 5, 6, E], [5, S, 6, E, 7, E], [5, 6], [E], [], [S, S, 5]):
+            for two_d in (False, True):
+                for sos in (None, 0, 3):
+                    for eos in (None, 1):
+                        sv, evl = (sos if sos is not None else 40), (eos if eos is not None else 41)
+                        toks = [sv if x == S else (evl if x == E else x) for x in shape]
+                        h = arr([[t_, 2, 4] for t_ in toks], 3) if two_d else arr(toks)
+                        saved = []
+
+                        def leaf(x, env):
+                            if isinstance(x, ast.Call) and call_name(x) == "torch.save":
+                                saved.append(holder["it"].eval(x.args[0], env))
+                                return True
+                            return None
+                        holder = {}
+                        it = Interp(leaf=leaf, lookup=lookup, tensors=True, effects=("torch.save",))
+                        holder["it"] = it
+                        names = [a.arg for a in wf.node.args.args]
+                        kind, got = it.run(wf.node, dict(zip(names, (h, "<path>", sos, eos))))
+                        n_w += 1
+                        want = list(toks)
+                        if sos is not None and sos in want:
+                            want = want[len(want) - want[::-1].index(sos):]
+                        if eos is not None and eos in want:
+                            want = want[:want.index(eos)]
+                        g = None
+                        if kind == "return" and len(saved) == 1 and hasattr(saved[0], "shape"):
+                            a_ = np.asarray(saved[0], dtype=object)
+                            try:
+                                g = [int(z) for z in (a_[:, 0] if a_.ndim == 2 else a_).tolist()]
+                            except (TypeError, ValueError):
+                                g = None
+                        if g != want and bad_w is None:
+                            bad_w = (toks, two_d, sos, eos, g if g is not None else f"{kind} {got} ({len(saved)} saves)", want)
+    except NotEvaluable:
+        return False
+    col.floor("load_ref_table_rows", n_l, 40)
+    col.floor("write_hyp_table_rows", n_w, 60)
+    col.ob("G16", "S6", f"{rel}::_load_ref::read-table", bad_l is None,
+           (f"reading the stored transcript {bad_l[0]} with tokens_only={bad_l[1]}, sos={bad_l[2]}, eos={bad_l[3]} gives {str(bad_l[4])[:80]}; documented: "
+            f"{bad_l[5]} (segment columns dropped under tokens_only, start symbol in front, end symbol behind, also for an empty transcript)") if bad_l else "",
+           rel, lf.line, sample=dict(rows=n_l))
+    col.ob("G16", "S6", f"{rel}::_write_hyp::write-table", bad_w is None,
+           (f"writing the hypothesis with tokens {bad_w[0]} ({'2' if bad_w[1] else '1'}-dimensional) under sos={bad_w[2]}, eos={bad_w[3]} stores "
+            f"{str(bad_w[4])[:80]}; documented: {bad_w[5]} (everything up to the last start symbol and from the first end symbol on is cut)") if bad_w else "",
+           rel, wf.line, sample=dict(rows=n_w))
+    return True
+
+
 def _s6(ctx, rel):
+    col, pkg = ctx.col, ctx.pkg
+    decided = _sos_eos_tables(ctx, rel)
+    _SKIP6 = ("::shape-donor", "::all-four-variants", "::strip-sos", "::strip-eos", "::strips-both")
+    _orig_ob, _orig_floor = col.ob, col.floor
+
+    def _ob(rule, clause, key, ok, *a, **k):
+        if decided and key.endswith(_SKIP6):
+            return None
+        return _orig_ob(rule, clause, key, ok, *a, **k)
+
+    def _floor(name, got, want):
+        if decided and name == "load_ref_cat_sites":
+            return None
+        return _orig_floor(name, got, want)
+    col.ob, col.floor = _ob, _floor
+    try:
+        return _s6_rest(ctx, rel)
+    finally:
+        col.ob, col.floor = _orig_ob, _orig_floor
+
+
+def _s6_rest(ctx, rel):
     col, pkg = ctx.col, ctx.pkg
     f = pkg.func(f"{MOD}::_load_ref")
     where = f"{rel}::_load_ref"
@@ -689,6 +824,32 @@ def _sticky_sentinels(ctx: Ctx):
                         kv = k.value if isinstance(k, ast.Constant) else (-k.operand.value if isinstance(k, ast.UnaryOp) and isinstance(k.operand, ast.Constant) else None)
                         if (isinstance(op, ast.GtE) and kv == 0) or (isinstance(op, ast.Gt) and kv == -1) or (isinstance(op, ast.NotEq) and kv == -1):
                             guarded = True
+            if not guarded:
+                # by evaluation: with the previous entry at the marker (-1) and an otherwise countable token, is the accumulation reached?
+                from sa.inteval import NotEvaluable as _NEs, int_eval as _ies
+                loop_ = pm.get(n)
+                while loop_ is not None and not isinstance(loop_, ast.For):
+                    loop_ = pm.get(loop_)
+                tnames = [e_.id for e_ in loop_.target.elts] if loop_ is not None and isinstance(loop_.target, ast.Tuple) and all(
+                    isinstance(e_, ast.Name) for e_ in loop_.target.elts) else []
+                envs = dict(zip(tnames, (5, 2, 3)))
+
+                def leaf_(y):
+                    if isinstance(y, ast.Call) and isinstance(y.func, ast.Attribute) and y.func.attr == "get" and u(y.func.value) == tname:
+                        return -1
+                    if isinstance(y, ast.Name) and y.id in prevs:
+                        return -1
+                    if isinstance(y, ast.Name) and y.id not in envs:
+                        ds_ = list(rd.defs_of(y))
+                        if ds_ and all(d_.kind == "param" for d_ in ds_):
+                            return 1
+                    return None
+                try:
+                    inside_ = {id(x) for x in ast.walk(loop_)} if loop_ is not None else set()
+                    reached = all(bool(_ies(t_, dict(envs, __leaf__=leaf_))) == p_ for t_, p_ in guards_of(pm, n) if id(t_) in inside_)
+                    guarded = not reached
+                except _NEs:
+                    pass
             col.ob("G16", "S8", f"{rel}::_info_and_validate::{tname}::unknown-marker-is-absorbing", guarded,
                    f"`{u(n)}` adds onto the previous entry of `{tname}` without testing that it is not the -1 'unknown' "
                    f"marker written at line {marks[0].lineno}: a class that once lacked boundaries gets a positive, wrong "
@@ -705,12 +866,28 @@ def _report_counts_what_validation_accepts(ctx: Ctx):
     rel = f.module.relname
     pm = parent_map(f.node)
     rej = []
+    from sa.defuse import ReachingDefs as _RD9
+    rd9 = _RD9(f.node)
+
+    def _col(e):
+        """(row, column) of `r[k]` or of a name bound to it (`start, end = r[1], r[2]`)."""
+        if isinstance(e, ast.Subscript) and isinstance(e.slice, ast.Constant):
+            return u(e.value), str(e.slice.value)
+        if isinstance(e, ast.Name):
+            ds = list(rd9.defs_of(e))
+            if len(ds) == 1 and ds[0].value is not None:
+                v = ds[0].value
+                if ds[0].kind == "unpack" and isinstance(v, ast.Tuple) and ds[0].slot and len(ds[0].slot) == 1 and ds[0].slot[0] < len(v.elts):
+                    v = v.elts[ds[0].slot[0]]
+                if isinstance(v, ast.Subscript) and isinstance(v.slice, ast.Constant):
+                    return u(v.value), str(v.slice.value)
+        return None
     for n in own_nodes(f.node):
         if isinstance(n, ast.If) and isinstance(n.test, ast.Compare) and len(n.test.ops) == 1 \
-                and isinstance(n.test.left, ast.Subscript) and isinstance(n.test.comparators[0], ast.Subscript) \
-                and u(n.test.left.value) == u(n.test.comparators[0].value) \
+                and _col(n.test.left) is not None and _col(n.test.comparators[0]) is not None \
+                and _col(n.test.left)[0] == _col(n.test.comparators[0])[0] \
                 and all(isinstance(x, ast.Raise) for x in n.body):
-            li, ri = u(n.test.left.slice), u(n.test.comparators[0].slice)
+            li, ri = _col(n.test.left)[1], _col(n.test.comparators[0])[1]
             op = type(n.test.ops[0])
             # normalise to (end OP start)
             if (li, ri) == ("2", "1"):
@@ -720,19 +897,43 @@ def _report_counts_what_validation_accepts(ctx: Ctx):
     rej = [r for r in rej if r]
     if len(rej) != 1:
         raise AnalysisError(f"C12: expected one start/end order rejection in the validator, found {rej}")
-    # the report's loop: for tok, start, end in <rows>
+    # the report's loop: for tok, start, end in <rows>. Which tokens are COUNTED (the accumulating store into the per-class table is
+    # reached) is evaluated (sa/inteval.py) from the conjunction of the tests the store runs under, for an empty segment, a proper one,
+    # an inverted one and one with a missing boundary - whichever way the condition is written (chained, negated, De Morgan)
+    from sa.inteval import NotEvaluable as _NE9b, int_eval as _ie9b
     acc = []
     for n in own_nodes(f.node):
         if isinstance(n, ast.For) and isinstance(n.target, ast.Tuple) and len(n.target.elts) == 3 and all(isinstance(e, ast.Name) for e in n.target.elts):
             tok, st, en = (e.id for e in n.target.elts)
-            for c in ast.walk(n):
-                if isinstance(c, ast.Compare) and isinstance(c.left, ast.Name) and isinstance(c.comparators[0], ast.Name):
-                    a, b, op = c.left.id, c.comparators[0].id, type(c.ops[0])
-                    if (a, b) == (en, st):
-                        acc.append({ast.Gt: "end>start", ast.GtE: "end>=start"}.get(op))
-                    elif (a, b) == (st, en):
-                        acc.append({ast.Lt: "end>start", ast.LtE: "end>=start"}.get(op))
-    acc = [a for a in acc if a]
+            stores = [x for x in ast.walk(n) if isinstance(x, ast.Assign) and len(x.targets) == 1 and isinstance(x.targets[0], ast.Subscript)
+                      and isinstance(x.value, ast.BinOp) and {st, en} <= {y.id for y in ast.walk(x.value) if isinstance(y, ast.Name)}]
+            inside = {id(x) for x in ast.walk(n)}
+            for x in stores:
+                gs = [(t_, p_) for t_, p_ in guards_of(pm, x) if id(t_) in inside]
+
+                def counted(s_, e_):
+                    def leaf(y):
+                        if isinstance(y, ast.Call) and isinstance(y.func, ast.Attribute) and y.func.attr == "get":
+                            return 0
+                        if isinstance(y, ast.Name) and y.id not in (st, en, tok):
+                            ds_ = list(rd9.defs_of(y))
+                            if ds_ and all(d_.value is not None and isinstance(d_.value, ast.Call) and isinstance(d_.value.func, ast.Attribute)
+                                           and d_.value.func.attr == "get" for d_ in ds_):
+                                return 0  # (the previous count of the class: known so far)
+                            if ds_ and all(d_.kind == "param" for d_ in ds_):
+                                return 1  # (an option of the function that switches the report on)
+                        return None
+                    return all(bool(_ie9b(t_, {st: s_, en: e_, tok: 5, "__leaf__": leaf})) == p_ for t_, p_ in gs)
+                try:
+                    tab = (counted(2, 2), counted(2, 3), counted(3, 2), counted(-1, 2))
+                except _NE9b:
+                    continue
+                if tab == (True, True, False, False):
+                    acc.append("end>=start")
+                elif tab == (False, True, False, False):
+                    acc.append("end>start")
+                else:
+                    acc.append(f"counted for (2,2),(2,3),(3,2),(-1,2): {tab}")
     if len(acc) != 1:
         raise AnalysisError(f"C12: expected one start/end comparison in the statistics loop, found {acc}")
     want = "end>=start" if rej[0] == "end<start" else "end>start"
@@ -884,6 +1085,20 @@ def _ref_boundary_decision_table(ctx: Ctx):
                 k_ = st.target.slice.value
                 env[rv][k_] = env[rv][k_] + val if isinstance(st.op, ast.Add) else env[rv][k_] - val
                 out.append(u(st))
+            elif isinstance(st, ast.Assign) and len(st.targets) == 1 and isinstance(st.targets[0], ast.Tuple) and isinstance(st.value, ast.Tuple) \
+                    and len(st.targets[0].elts) == len(st.value.elts) and all(isinstance(t_, ast.Name) for t_ in st.targets[0].elts):
+                # `start, end = r[1], r[2]`
+                vals_ = []
+                for v_ in st.value.elts:
+                    try:
+                        vals_.append(ev(v_, env))
+                    except Und:
+                        vals_.append(None)
+                for t_, v_ in zip(st.targets[0].elts, vals_):
+                    if v_ is None:
+                        env.pop(t_.id, None)
+                    else:
+                        env[t_.id] = v_
             elif isinstance(st, ast.Assign) and len(st.targets) == 1 and isinstance(st.targets[0], ast.Name):
                 try:
                     env[st.targets[0].id] = ev(st.value, env)
@@ -940,22 +1155,27 @@ def _dimensionality_flag_and_discovery(ctx: Ctx):
     f = pkg.func("_datasets::_info_and_validate")
     rel = f.module.relname
     pm = parent_map(f.node)
-    # (a) flags: locals initialised to None that are compared with `is True` / `is False`
+    # (a) flags: locals initialised to None that are compared with two distinct constants (`is True` / `is False`, `== 1` / `== 2`, ..)
+    none_init = {t.id for n in own_nodes(f.node) if isinstance(n, ast.Assign) and isinstance(n.value, ast.Constant) and n.value.value is None
+                 for t in n.targets if isinstance(t, ast.Name)}
     flags = {}
+
+    def _const(c):
+        return isinstance(c, ast.Constant) and c.value is not None and isinstance(c.value, (bool, int, str))
     for n in own_nodes(f.node):
         if isinstance(n, ast.Compare) and len(n.ops) == 1 and isinstance(n.ops[0], (ast.Is, ast.IsNot, ast.Eq, ast.NotEq)) \
-                and isinstance(n.left, ast.Name) and isinstance(n.comparators[0], ast.Constant) and isinstance(n.comparators[0].value, bool):
-            flags.setdefault(n.left.id, dict(tested=set(), stored=set()))["tested"].add(n.comparators[0].value)
+                and isinstance(n.left, ast.Name) and n.left.id in none_init and _const(n.comparators[0]):
+            flags.setdefault(n.left.id, dict(tested=set(), stored=set()))["tested"].add(repr(n.comparators[0].value))
     for n in own_nodes(f.node):
-        if isinstance(n, ast.Assign) and isinstance(n.value, ast.Constant) and isinstance(n.value.value, bool):
+        if isinstance(n, ast.Assign) and _const(n.value):
             for t in n.targets:
                 if isinstance(t, ast.Name) and t.id in flags:
-                    flags[t.id]["stored"].add(n.value.value)
-    tri = {k: v for k, v in flags.items() if v["tested"] == {True, False}}
+                    flags[t.id]["stored"].add(repr(n.value.value))
+    tri = {k: v for k, v in flags.items() if len(v["tested"]) >= 2}
     col.floor("tri_state_flags", len(tri), 1)
     for k, v in sorted(tri.items()):
-        col.ob("G16", "S11", f"{rel}::_info_and_validate::{k}::both-states-recorded", v["stored"] == {True, False},
-               f"`{k}` is tested against both True and False but only {sorted(v['stored'])} is ever stored: the kind of reference that "
+        col.ob("G16", "S11", f"{rel}::_info_and_validate::{k}::both-states-recorded", v["stored"] >= v["tested"],
+               f"`{k}` is tested against {sorted(v['tested'])} but only {sorted(v['stored'])} is ever stored: the kind of reference that "
                f"does not record itself is not remembered, so a directory whose first references are of that kind and later ones of the "
                f"other kind is accepted although its references are not of one dimensionality", rel, f.line, sample=sorted(v["stored"]))
     # (b) discovery
@@ -1099,13 +1319,13 @@ def _mutants():
           "_info_and_validate-binding"),
         M("cli-fix-truthiness", "command_line.py", "options.strict or options.fix is not None", "options.strict or options.fix",
           "G"),
-        M("load-ref-shape-from-first-row", D, "ref.new_full((1,), sos)", "torch.full_like(ref[:1], sos)", "sos-1d::shape-donor"),
+        M("load-ref-shape-from-first-row", D, "ref.new_full((1,), sos)", "torch.full_like(ref[:1], sos)", "read-table"),
         M("eos-in-front", D, "torch.cat([ref, ref.new_full((1,), eos)], 0)", "torch.cat([ref.new_full((1,), eos), ref], 0)",
           "eos-1d::order"),
-        M("sos-row-carries-eos", D, "sos_sym[0] = sos", "sos_sym[0] = eos", "G16/S6"),
-        M("strip-first-sos", D, "sos_idx = sos_idxs[-1].item()", "sos_idx = sos_idxs[0].item()", "strip-sos"),
-        M("strip-last-eos", D, "eos_idx = eos_idxs[0].item()", "eos_idx = eos_idxs[-1].item()", "strip-eos"),
-        M("strip-keeps-sos", D, "hyp = hyp[sos_idx + 1:]", "hyp = hyp[sos_idx:]", "strip-sos"),
+        M("sos-row-carries-eos", D, "sos_sym[0] = sos", "sos_sym[0] = eos", "read-table"),
+        M("strip-first-sos", D, "sos_idx = sos_idxs[-1].item()", "sos_idx = sos_idxs[0].item()", "write-table"),
+        M("strip-last-eos", D, "eos_idx = eos_idxs[0].item()", "eos_idx = eos_idxs[-1].item()", "write-table"),
+        M("strip-keeps-sos", D, "hyp = hyp[sos_idx + 1:]", "hyp = hyp[sos_idx:]", "write-table"),
         M("write-hyp-other-symbol-source", D, "_write_hyp(hyp, pth, self.sos, self.eos)", "_write_hyp(hyp, pth, self.params.sos, self.params.eos)",
           "inserted-symbols==stripped-symbols"),
         M("write-hyp-symbols-swapped", D, "_write_hyp(hyp, pth, self.sos, self.eos)", "_write_hyp(hyp, pth, self.eos, self.sos)",
